@@ -6,9 +6,24 @@ ALL = ["C%02d" % i for i in range(1, 21)]
 
 # id: (design_ref, technique, level text, level note)
 CHECKS = {
+ "C01": ("6/C01", "TLA+ decoder machine CborDecoder + grammar CborGrammar; TLC model check (MC_Decoder incl. liveness); TLC trace validation of hooked cbor_load executions (Trace_Decoder, Trace_LoadE2E) under ASan/UBSan/assert/watchdog",
+         "TLC explores every head string up to 5 tokens (with end-of-input anywhere and one refused allocation) and shows the stack machine always terminates in one of exactly two outcomes with an empty stack, reading only inside the buffer. Every real cbor_load execution over the input space (token strings the decoder keeps reading, all byte strings <= 2 (<= 4 thorough), random items and their single-edit neighbours, each in an exactly-sized heap block) is stepped through that machine by TLC line by line; the follow-up operations (describe, size, serialize, copy, release) run on every returned tree. Stray accesses, UB, assertion failures and hangs are observed by the sanitizer build and a watchdog and reported with the input.",
+         "Trusted: TLC; the hook (add-only, guarded) and recorder log raw observations; ASan/UBSan/CBOR_ASSERT for physical memory safety (a TLA+ state cannot see a stray load). Bounded: see evidence rule."),
+ "C02": ("6/C02", "TLA+ CborDecoder (stack machine) vs CborGrammar (declarative RFC 8949 reference) agreement by TLC (MC_Decoder, L=1,2,3); TLC trace validation of hooked cbor_load executions incl. returned tree, refcounts, read (Trace_Decoder, Trace_LoadE2E)",
+         "TLC shows that the stack algorithm and an independent recursive-descent reference agree on accept/reject, tree, bytes read and error for every head string within the bound (3.0M states). Each real execution is then replayed by TLC through the machine with the projected stack compared after every loop iteration, and its result (tree through public getters after the input block was overwritten and freed, every refcount, bytes read) is judged against machine and grammar.",
+         "Trusted: TLC, recorder. The reference grammar is transcribed from RFC 8949 and the property text; scalar values/string contents are restored in conformance from the logged bytes. Bounded input space: see evidence rule."),
+ "C05": ("6/C05", "TLA+ CborGrammar.Admissible (code, position) oracle incl. the permitted lazy report; TLC model check; TLC trace validation of failing cbor_load executions with pre-filled result struct",
+         "TLC checks machine = grammar on error code and position for all bounded head strings (incl. nesting limit and refused allocation). Every failing real execution is judged by TLC: NULL, nothing left allocated, all three result fields written, (code, position) in the admissible set computed by the grammar from the logged heads; eager and lazy reports of an item opened inside a chunked string are both accepted.",
+         "Trusted: TLC, recorder (result struct pre-filled with 0xAB; raw field values logged). Bounded input space."),
  "C08": ("6/C08", "TLA+ requirement CborWire.StreamDecode; TLC model check (MC_Wire) + TLC trace validation of recorded cbor_stream_decode calls (Trace_Wire)",
          "TLC checks the wire requirement for internal consistency on 27k (head, window) states (two independent transcriptions of the RFC table agree; a legal `required` always exists; FINISHED depends only on the bytes read). Every recorded call of the real cbor_stream_decode (all 256 initial bytes x argument classes x window lengths, exact-size ASan buffers) is then validated line by line by TLC against that requirement.",
          "Trusted: TLC, the ndjson recorder in harness/h_wire.c (logs raw inputs and outputs only), ASan/UBSan for out-of-window reads. Bounded input space: see evidence rule."),
+ "C14": ("6/C14", "TLA+ reference decoder CborLoadRef (tokenisation + grammar) evaluated by TLC on logged bytes; TLC model check of the machine stopping at the first item; trace validation (Trace_Sequence)",
+         "For every (x, y) pair and every concatenation recorded from the real cbor_load, TLC computes from the logged bytes what x denotes and requires x and x.y to give that tree and read = |x|, and the cbor_sequence loop to split a concatenation into exactly its items ending at the buffer end.",
+         "Trusted: TLC, recorder. x ranges over seeded random well-formed items; y over empty, single bytes (all 256 for the first 12 x), items, garbage, structural bytes."),
+ "C19": ("6/C19", "TLA+ CborDecoder/CborGrammar parametric in L; TLC model check for L=1,2,3; libcbor built through CMake with CBOR_MAX_STACK_SIZE in {1,2,3,(8,64,)2048}; TLC trace validation per L; small fixed native stack run",
+         "TLC shows for L=1,2,3 and all bounded head strings that a frame push is refused exactly at depth L and reported as MEMERROR just past that head, and that empty definite containers never open a level. For each configured L the real library is built with that option and its executions on nesting families (every container kind, depths L-1, L, L+1, 4L) are validated by TLC against the spec instantiated with the same L; the whole pipeline is also run on a thread with a 64 KiB + 2 KiB*L stack.",
+         "Trusted: TLC, recorder; native stack consumption is observed (SIGSEGV on an alternate stack), the spec bounds recursion depth only. Deep executions (L >= 64) are judged end to end by the grammar rather than stepped through the machine."),
 }
 NOT_YET = "check not built yet in this round (machinery in progress); no claim made"
 
@@ -42,7 +57,7 @@ def main():
     json.dump(m, open(os.path.join(V, "MANIFEST.json"), "w"), indent=1)
     print("MANIFEST.json: %d checks, %d not_applicable" % (len(checks), len(m["not_applicable"])))
 
-HOOK_COMMITS = []
+HOOK_COMMITS = ["1d83805"]
 NA = {}
 if __name__ == "__main__":
     main()
